@@ -239,31 +239,63 @@ def r4(ctx):
     # ---- average_coverage
     f = repo.func("report", "average_coverage")
     sm, pl = f.params
-    rets = [n.value for n in walk_no_nested(f.node) if isinstance(n, ast.Return) and "nan" not in u(n.value)]
     key = "report:average_coverage:mean"
-    ok = len(rets) == 1 and isinstance(rets[0], ast.BinOp) and isinstance(rets[0].op, ast.Div) and u(rets[0].right) == f"len({pl})"
-    comp = None
-    if ok:
-        leaves = provenance(f, rets[0].left, stmt_of(f, rets[0]))
-        for n in walk_no_nested(f.node):
-            if isinstance(n, (ast.ListComp, ast.GeneratorExp)) and "coverage(" in u(n.elt):
-                comp = n
-        ok = comp is not None
-    if not ok:
-        ctx.violation(key, f"average coverage must be sum(coverage of each platform) / len(platforms): {[u(r) for r in rets]}", f.loc())
-    else:
-        g = comp.generators[0]
-        v = u(g.target)
-        ctx.check(len(comp.generators) == 1 and u(g.iter) == pl and not g.ifs, key + ":over-platforms", f"must sum over exactly the collection whose length divides the sum (`{pl}`): iterates {u(g.iter)}", f.loc(comp))
-        el = comp.elt
-        ok = isinstance(el, ast.Call) and u(el.func) == "coverage" and len(el.args) == 2 and u(el.args[0]) == sm and u(el.args[1]) in (f"[{v}]", "{" + v + "}", f"({v},)", f"set([{v}])", f"frozenset([{v}])")
-        ctx.check(ok, key + ":single-platform-coverage", f"each term must be the coverage of ONE platform, passed as a one-element collection (`coverage({sm}, [{v}])`): `{u(el)}` - a bare string turns the membership test `p in platforms` into a substring test", f.loc(el))
-        # summation operator
-        par = [n for n in walk_no_nested(f.node) if isinstance(n, ast.Call) and any(a is comp for a in n.args)]
-        ctx.soft(len(par) == 1 and u(par[0].func) in ("math.fsum", "sum"), key + ":sum", "terms must be summed", f.loc(comp))
-    dflt = [s for s in f.node.body if isinstance(s, ast.If) and u(s.test) == f"not {pl}"]
-    ok = len(dflt) == 1 and u(dflt[0].body[0]) == f"{pl} = set().union(*{sm}.keys())"
-    ctx.soft(ok, "report:average_coverage:default-platforms", "without `platforms`, all platforms of the table must be averaged", f.loc())
+    # decision table: P = platforms, or every platform of the table when none are given;
+    #   no platforms -> NaN; otherwise sum(coverage(setmap, [p]) for p in P) / len(P)
+    from ..spec import call_args, n_iter, split_top, tab, vt
+    import re
+
+    n_mean = 0
+    for p in tab(f):
+        at = {vt(k): v for k, v in p.atoms.items()}
+        given = at.get(pl)
+        res = vt(p.result[1]) if p.result[0] == "return" else ""
+        if given is None:
+            raise AnalysisError(f"average_coverage: the test whether platforms were given is not recognised: {p.describe()[:160]}")
+        P = pl if given else f"set().union(*{sm}.keys())"
+        if not given:
+            nonempty = at.get(P)
+            ctx.check(nonempty is not None, "report:average_coverage:default-platforms", f"without `platforms`, all platforms of the table (`{P}`) must be averaged: {p.describe()[:200]}", f.loc())
+            if nonempty is None:
+                continue
+            if not nonempty:
+                ctx.check(res == "float('nan')", key + ":nan", f"no platforms: the average is undefined (NaN), got {res}", f.loc())
+                continue
+        m = re.fullmatch(r"\((.+) Div len\((.+)\)\)", res)
+        if not m:
+            ctx.violation(key, f"average coverage must be sum(coverage of each platform) / len(platforms): returns `{res[:160]}`", f.loc())
+            continue
+        n_mean += 1
+        ctx.check(m.group(2) == P, key + ":over-platforms", f"the sum must be divided by the size of the collection it runs over (`{P}`), not `{m.group(2)}`", f.loc())
+        summed = None
+        for fn in ("math.fsum", "sum"):
+            ca = call_args(m.group(1), fn)
+            if ca and len(ca[0]) == 1:
+                summed = ca[0][0]
+        if summed is None:
+            raise AnalysisError(f"average_coverage: summation not recognised: {m.group(1)[:120]}")
+        cm = re.fullmatch(r"(?:comp:)?[\[(]coverage\((.+), (.+)\) for (\w+) in (.+)[\])]", summed)
+        if cm:
+            terms = [(cm.group(1), cm.group(2).replace(cm.group(3), "@"))]
+            over = cm.group(4)
+        elif summed.startswith("[") and summed.endswith("]"):
+            items = split_top(summed[1:-1])
+            terms, over = [], P
+            for i, it_ in enumerate(items):
+                ca = call_args(it_, "coverage")
+                if not ca or len(ca[0]) != 2:
+                    raise AnalysisError(f"average_coverage: term not recognised: {it_[:80]}")
+                terms.append((ca[0][0], ca[0][1].replace(f"{P}[{i}]", "@")))
+            if len(items) != n_iter(p, P):
+                ctx.violation(key + ":over-platforms", f"{len(items)} terms are summed for {n_iter(p, P)} platforms visited", f.loc())
+        else:
+            raise AnalysisError(f"average_coverage: summed collection not recognised: {summed[:120]}")
+        ctx.check(over == P, key + ":over-platforms", f"must sum over exactly the collection whose length divides the sum (`{P}`): iterates `{over}`", f.loc())
+        for a0, a1 in terms:
+            ok = a0 == sm and a1 in ("[@]", "{@}", "(@,)", "set([@])", "frozenset([@])", "set:{@}")
+            ctx.check(ok, key + ":single-platform-coverage", f"each term must be the coverage of ONE platform, passed as a one-element collection (`coverage({sm}, [p])`): `coverage({a0}, {a1.replace('@', 'p')})` - a bare string turns the membership test `p in platforms` into a substring test", f.loc())
+    if not n_mean:
+        raise AnalysisError("average_coverage: no path returns a mean")
     # ---- divergence
     d = repo.func("report", "divergence")
     smd = d.params[0]
